@@ -12,3 +12,16 @@ check('C20', 'exploration',
       'All call sequences the surrounding system permits up to length 6 (quick) / 7 (thorough) are executed on the real Notifications object (DFS with state copies, unique token per hand-over) under an online monitor for both clauses; plus random long words. The component is small and loop-owned, so bounded-exhaustive monitoring of the real object is the strongest runtime evidence available.',
       'environment model of permitted sequences (validated against real traces in the C07 runs); start-up counts for clause (a) only; join rule evaluated for tokens handed over at or before the earlier of the two latest reports',
       'online trace monitor (conservation + ordering) on bounded-exhaustive executions of the real object', 'DESIGN.md section 4 C20')
+_IDX_NOTE = 'trusted: CPython/asyncio, plyvel/LevelDB, the generator+reference model (independent of electrumx, cross-checked by fresh-index differentials); interleavings explored at failpoint granularity (DB get/put/iterator/batch commit, logical file read/write, job start/end); chains bounded (<=300 blocks quick<=60)'
+check('C01', 'exploration',
+      'The real Controller.serve indexes generated valid chains from a simulated bitcoind under seeded flush vectors, prefetch limits, reorg limits and job interleavings; at every observed catch-up all UTXO observables (per-script UTXO multisets, balances, counts, lookup_utxos, raw u/h rows, session get_balance/listunspent) are diffed against an independent reference model. Monitor counters prove collisions were resolved from disk, history-only flushes happened, both sides of the OP_RETURN rule occurred.',
+      _IDX_NOTE, 'reference-model oracle on generated executions of the real server (simulated daemon, virtual time, gated executor)', 'DESIGN.md section 4 C01')
+check('C02', 'exploration',
+      'Same executions as C01, judged on history observables: limited_history for every script hash and a set of limits, fs_tx_hash for every tx number, tx hashes per height, concatenated raw history rows, get_history through a real session.',
+      _IDX_NOTE, 'reference-model oracle on generated executions of the real server', 'DESIGN.md section 4 C02')
+check('C03', 'exploration',
+      'Generated admissible fork histories (every depth up to the limit, equal/shorter branches then extension, mid-batch discovery, back-to-back forks, forced reorgs with and without daemon switch) are executed by the real server; at every observed catch-up every observable incl. raw table rows equals the reference model of the daemon chain, and (quarter of quick cases, all thorough) a fresh index built by the real code from the final chain.',
+      _IDX_NOTE + '; admissibility rule for generated forks documented in exv/scen.py (undo existence per block)', 'reference-model + fresh-index differential oracle over generated reorg histories of the real server', 'DESIGN.md section 4 C03')
+check('C15', 'exploration',
+      'REORG_LIMIT x indexing mode (initial sync, caught up, before restart, restart mid-sync, daemon jumping) x probe depth limit-1/limit/limit+1 natural or forced; monitors on undo keys after every database open and at every catch-up, plus the C03 comparison after the probe reorg. limit+1 outcomes are recorded, not judged.',
+      _IDX_NOTE, 'invariant monitor on undo keys + reference-model oracle over generated restart/reorg histories', 'DESIGN.md section 4 C15')
